@@ -100,11 +100,15 @@ def main():
             if mm:
                 first = mm.group(1)
                 break
+        if m.get("status", "").startswith("obsolete"):
+            rows.append((key, files[:40], what, "(obsolete)", "", "", "matrix 1: missed -> hidden + visible column of one name through a SQL subquery (C11); caught in matrix 2; " + m["status"][:160]))
+            continue
         rows.append((key, files[:40], what, ", ".join(m.get("caught_by", [])) or "**none**", ", ".join(m.get("not_caught_by", [])), first[:60], HIST.get(key, "")))
-    own = sum(1 for r in rows if r[0].split("-")[0] in r[3].split(", "))
-    anyc = sum(1 for r in rows if r[3] != "**none**")
+    live = [r for r in rows if r[3] != "(obsolete)"]
+    own = sum(1 for r in live if r[0].split("-")[0] in r[3].split(", "))
+    anyc = sum(1 for r in live if r[3] != "**none**")
     out = TEXT
-    out += f"**Result (final matrix, {len(rows)} confirmed changes):** {anyc} caught by at least one check that was run, {own} by the check of their own property.\n\n"
+    out += f"**Result (final matrix, {len(live)} confirmed changes that still are defects on the final tree):** {anyc} caught by at least one check that was run, {own} by the check of their own property.\n\n"
     out += "| change | file(s) | what it breaks (abridged) | caught by | run, not caught | first witness | history |\n|---|---|---|---|---|---|---|\n"
     for r in rows:
         out += "| " + " | ".join(r) + " |\n"
